@@ -203,6 +203,7 @@ def run(facts, rep, ctx):
             continue
         b, paths = ops[op]
         bad = []
+        undecided = set()
         rows = 0
         for S in (0, 4, 8, 12):
             for a in (0, 1, 2, 4, 5, 8, 9, 12, 13, 16, MAX - 3, MAX):
@@ -231,9 +232,13 @@ def run(facts, rep, ctx):
                         oks = [o for o in outs if o["err"] is False]
                         if valid and (not oks or any(o["definite"] for o in errs)):
                             bad.append(("rejects-valid", S, a, n, ""))
-                        if not valid and oks:
+                        if not valid and any(o["definite"] for o in oks):
                             bad.append(("accepts-invalid", S, a, n, ""))
+                        elif not valid and oks:
+                            undecided.add("%s: a success path could not be excluded at size=%s address=%s amount=%s (a condition on it is not evaluable)" % (op, S, hx(a), hx(n)))
         rep.count("validation_classes", rows)
+        for u_ in sorted(undecided)[:1]:
+            rep.inconc(R4, u_)
         if bad:
             for kd in sorted(set(x[0] for x in bad)):
                 ex = [x for x in bad if x[0] == kd][0]
@@ -411,8 +416,11 @@ def data_edit(facts, rep, R6, ops, E, fields):
                 root, fld, via = root_field(e["args"][0], False)
                 if root and fld == "data":
                     edits.append(e)
+        if not edits:
+            rep.violation(R6, b.name, "data-edit-count", "%s never edits self.data on its success path" % op, "%s:%s" % (b.file, b.line))
+            continue
         if len(edits) != 1:
-            rep.violation(R6, b.name, "data-edit-count", "%s edits self.data %d time(s) on its success path (expected exactly one splice/drain/truncate)" % (op, len(edits)), "%s:%s" % (b.file, b.line))
+            rep.inconc(R6, "%s edits self.data through %d calls (%s): the combined effect is not decided" % (op, len(edits), ", ".join(x["callee"].rsplit("::", 1)[-1] for x in edits)))
             continue
         e = edits[0]
         nm = e["callee"].rsplit("::", 1)[-1]
@@ -457,6 +465,8 @@ def data_edit(facts, rep, R6, ops, E, fields):
             continue
         if good:
             rep.ok(R6, {"op": op, "edit": why})
+        elif why.startswith("unrecognised edit"):
+            rep.inconc(R6, "%s: %s on self.data" % (op, why))
         else:
             rep.violation(R6, b.name, "data-edit", "%s with a=%d n=%d size=%d performs %s" % (op, a, n, S, why), "%s:%s" % (b.file, e["line"]))
 
